@@ -5,6 +5,7 @@ import (
 	"math/big"
 	"math/rand"
 	"os"
+	"regexp"
 	"sort"
 	"strings"
 	"unicode/utf8"
@@ -42,11 +43,13 @@ type c17 struct {
 	deep bool
 }
 
+var ansiRe = regexp.MustCompile("\x1b\\[[0-9;]*m")
+
 func init() { register("C17", func() core.Check { return &c17{} }) }
 
 func (*c17) Level() string { return "exploration" }
 func (*c17) Rule() string {
-	return "case = journal from one of two generators (gen.Accepted with boundary-rich amounts, optionally prices/accruals; or a dedicated generator whose running *balances* per (account, commodity) are drawn from the rounding-boundary list scaled to the case's focus (--digits, -k), names up to 60 runes incl. multi-byte; with -k focus also 16-decimal balances 4e-16 below a boundary) x flag combinations (--digits -2..10 or omitted, -k/--thousands, window/interval/last/diff/close, -v with a price tree, -s), each rendered as text and as --csv with -a; oracle = equal rune width of all lines, '|'/'+' at the same rune columns in every line, text rows (minus separator/blank rows) 1:1 with CSV records cell by cell, every numeric text cell == independent big.Rat formatter(CSV amount, n, k) incl. digit grouping, zero => blank, and CSV account cells == reference ledger; non-trivial = report with >=4 numeric cells, >=1 of them on a rounding boundary or with a thousands separator or negative, and (multi-byte names or >=2 date columns); distinct = hash of journal text + flags"
+	return "case = journal from one of two generators (gen.Accepted with boundary-rich amounts, optionally prices/accruals; or a dedicated generator whose running *balances* per (account, commodity) are drawn from the rounding-boundary list scaled to the case's focus (--digits, -k), names up to 60 runes incl. multi-byte; with -k focus also 16-decimal balances 4e-16 below a boundary) x flag combinations (--digits -2..10 or omitted, -k/--thousands, window/interval/last/diff/close, -v with a price tree, -s), each rendered as text and as --csv with -a, a third of the text tables with colours switched on (escape sequences removed, the remainder must equal the --color=false table byte for byte); oracle = equal rune width of all lines, '|'/'+' at the same rune columns in every line, text rows (minus separator/blank rows) 1:1 with CSV records cell by cell, every numeric text cell == independent big.Rat formatter(CSV amount, n, k) incl. digit grouping, zero => blank, and CSV account cells == reference ledger; non-trivial = report with >=4 numeric cells, >=1 of them on a rounding boundary or with a thousands separator or negative, and (multi-byte names or >=2 date columns); distinct = hash of journal text + flags"
 }
 
 func (k *c17) Setup(c *core.Ctx) (int, error) {
@@ -664,7 +667,36 @@ func (k *c17) RunCase(c *core.Ctx, i int) {
 		}
 		argsT = append(argsT, "j.knut")
 		argsC := append(append([]string{}, base...), "--csv", "j.knut")
-		rt := knut(c, dir, nil, argsT...)
+		// a third of the text tables are rendered with colours on (the flag's default): the
+		// escape sequences are not part of the table, what remains must be the same table
+		colored := fr.Intn(3) == 0
+		var plain core.Result
+		if colored {
+			plain = knut(c, dir, nil, argsT...)
+			for ai, a := range argsT {
+				if a == "--color=false" {
+					argsT[ai] = []string{"--color=true", "--color"}[fr.Intn(2)]
+				}
+			}
+		}
+		var envT []string
+		if colored {
+			envT = []string{"NO_COLOR="} // the harness' fixed environment switches colours off otherwise
+		}
+		rt := knut(c, dir, envT, argsT...)
+		if colored {
+			raw := string(rt.Stdout)
+			rt.Stdout = ansiRe.ReplaceAll(rt.Stdout, nil)
+			if rt.Class == "ok" && plain.Class == "ok" {
+				c.Count("coloured_tables", 1)
+				c.Count("colour_sequences", strings.Count(raw, "\x1b["))
+				if string(rt.Stdout) != string(plain.Stdout) {
+					c.Violation(core.Witness{Case: i, Key: "colour-changes-table", Why: "with colours on, the text table differs from the table rendered with --color=false after the escape sequences are removed: " + firstDiff(string(plain.Stdout), string(rt.Stdout)),
+						Files: map[string][]byte{"j.knut": []byte(text)}, Cmd: knutCmd(c, envT, argsT...), Extra: map[string]string{"coloured.txt": raw, "plain.txt": string(plain.Stdout)}})
+					return
+				}
+			}
+		}
 		rc := knut(c, dir, nil, argsC...)
 		c.Eval(1)
 		if rt.Class == "timeout" || rc.Class == "timeout" {
